@@ -66,6 +66,14 @@ def run(ctx):
         op = rnd.choice(['"+"', '"-"', '"*"', '"abs"', '"||"', '"="', '"!="', '"<"', '"<="', '">"', '">="'])
         e = '(%s .a)' % op if op in ('"abs"', '"||"') else '(%s .a .b)' % op
         c = mkcase('N%d' % i, lib.new_cfg(select=[e + '=x']), gen.jdump({'a': a, 'b': b})); cases.append(c); meta[c['id']] = ('nas', op, a, b)
+    # digit-only and signed spellings with leading zeros, every ordered pair, every comparison (a shortcut by length or by text is wrong here)
+    ZS = ['7', '007', '12', '0012', '0', '00', '000', '100', '0100', '99', '099', '-7', '-007', '-0', '-00', '7.0', '07.50', '7.5', '1e1', '010e-1']
+    k = 0
+    for op in ['"="', '"!="', '"<"', '"<="', '">"', '">="']:
+        for x in ZS:
+            for y in ZS:
+                k += 1
+                c = mkcase('Z%d' % k, lib.new_cfg(select=['(%s .a .b)=x' % op]), gen.jdump({'a': x, 'b': y})); cases.append(c); meta[c['id']] = ('nas', op, x, y)
     impl, model, mism = common.correspond(cases)
     violations = []; checked = 0
     for c in cases:
